@@ -592,8 +592,10 @@ def make_query(rng, tc, root_mode=None):
         ch = children_of(tc["parent"])
         ints = [u for u in range(n) if ch[u]]
         root = rng.choice(ints) if ints else rng.randrange(n)
-    labels = rng.choice(["default", "default", "default", "ms", "dict", "dict"])
-    if labels == "dict":
+    labels = rng.choice(["default", "default", "default", "ms", "dict", "dict", "default_dict"])
+    if labels == "default_dict":        # the default labels given explicitly: forces the Python path
+        labels = [[u, "n%d" % u] for u in range(n) if tc.get("flags", [1] * n)[u] & 1]
+    elif labels == "dict":
         k = rng.choice([0, 1, n // 2, n, n])
         ids = rng.sample(range(n), min(k, n))
         if rng.random() < 0.2:
@@ -606,13 +608,58 @@ def make_query(rng, tc, root_mode=None):
 def build_single_tree(tc):
     import tskit
     t = tskit.TableCollection(1.0)
+    if tc.get("mig_times"):
+        t.populations.add_row()
+        t.populations.add_row()
     for f, tm in zip(tc["flags"], tc["times"]):
         t.nodes.add_row(flags=f, time=tm)
     for c, p in enumerate(tc["parent"]):
         if p != NULL:
             t.edges.add_row(0, 1, p, c)
+    for k, (u, mt) in enumerate(tc.get("mut_times") or []):
+        sid = t.sites.add_row(position=k / 8.0, ancestral_state="A")
+        t.mutations.add_row(site=sid, node=u, derived_state="T", time=mt)
+    for mt in sorted(tc.get("mig_times") or []):
+        t.migrations.add_row(left=0, right=1, node=0, source=0, dest=1, time=mt)
     t.sort()
     return t.tree_sequence()
+
+
+def tc_discrete(tc):
+    """ts.discrete_time by its documentation: ALL node, mutation and migration times integral."""
+    return (all(is_int(t) for t in tc["times"]) and all(is_int(mt) for _u, mt in tc.get("mut_times") or [])
+            and all(is_int(mt) for mt in tc.get("mig_times") or []))
+
+
+def add_other_times(rng, tc, fractional):
+    """mutation / migration times that alone decide ts.discrete_time (round 6): strictly inside the
+    branch above the node when it has a parent, so that the tables stay valid."""
+    n = tc["n"]
+    muts, migs = [], []
+    for u in rng.sample(range(n), min(n, rng.randrange(1, 3))):
+        p = tc["parent"][u]
+        lo = tc["times"][u]
+        hi = tc["times"][p] if p != NULL else lo + 4
+        if fractional:
+            mt = lo + (hi - lo) / 2 if not is_int(lo + (hi - lo) / 2) else lo + (hi - lo) / 4
+            if is_int(mt) or not (lo <= mt < hi):
+                continue
+        else:
+            mt = float(math.floor(lo) + 1)
+            if not (lo <= mt < hi or (p == NULL and lo <= mt)):
+                mt = lo
+            if not is_int(mt):
+                continue
+        muts.append([u, mt])
+    if rng.random() < 0.5:
+        migs.append(rng.choice([0.5, 1.25, 2.75]) if fractional else float(rng.randrange(0, 5)))
+    tc = dict(tc)
+    which = rng.choice(["mut", "mig", "both"])
+    if which in ("mut", "both") and muts:
+        tc["mut_times"] = muts
+    if which in ("mig", "both") or not muts:
+        tc["mig_times"] = migs or ([0.5] if fractional else [1.0])
+    return tc
 
 
 class Newick(Family):
@@ -665,6 +712,21 @@ class Newick(Family):
             if rng.random() < 0.04:
                 q["precision"] = rng.choice([18, 25, -1, -3])
             yield {"tree": tc, "q": q}
+        # --- the default precision (precision=None): 0 iff ALL node, mutation and migration times
+        # are integers; trees whose discrete_time is decided by mutation / migration times alone,
+        # on both paths (default labels = fast path; the same labels as a dictionary, or no branch
+        # lengths / ms / other dictionaries = Python path)
+        for k in range(240 if quick else 2400):
+            n = rng.choice([2, 3, 5, 8])
+            tc = make_tree_case(rng, n, scheme=rng.choice(["int", "int", "int", "dyadic", "frac"]))
+            if rng.random() < 0.9:
+                tc = add_other_times(rng, tc, fractional=rng.random() < 0.7)
+            q = make_query(rng, tc)
+            q["precision"] = None
+            if k % 2 == 0:
+                q["ibl"] = rng.choice([None, True])
+                q["labels"] = [[u, "n%d" % u] for u in range(n) if tc["flags"][u] & 1] if k % 4 == 0 else "default"
+            yield {"tree": tc, "q": q}
         # --- every option combination on both paths, for a few trees (round-5 class 2) ---------
         for tc in ([make_tree_case(rng, 4, kind="random", scheme="int"),
                     make_tree_case(rng, 5, kind="caterpillar", scheme="frac")] if quick else
@@ -711,17 +773,17 @@ class Newick(Family):
         tc, q = case["tree"], case["q"]
         ts = build_single_tree(tc)
         tree = ts.first()
-        discrete = all(is_int(t) for t in tc["times"])
+        discrete = tc_discrete(tc)
         return run_queries(tree, ts, q, discrete, want_arrays=tc["n"] <= self.COQ_MAX_NODES)
 
     def oracle(self, case, obs):
         tc, q = case["tree"], case["q"]
-        discrete = all(is_int(t) for t in tc["times"])
+        discrete = tc_discrete(tc)
         return judge(tc["parent"], tc["flags"], tc["times"], discrete, q, obs)
 
     def coq_check(self, case, obs):
         tc, q = case["tree"], case["q"]
-        discrete = all(is_int(t) for t in tc["times"])
+        discrete = tc_discrete(tc)
         return coq_newick_term(q, obs, discrete, tc["n"])
 
     def nontrivial(self, case, obs):
@@ -732,6 +794,7 @@ class Newick(Family):
         n = tc["n"]
         return {"nodes": "1-4" if n <= 4 else "5-20" if n <= 20 else "21-100" if n <= 100 else "101-2000",
                 "kind": tc["kind"], "times": tc["scheme"],
+                "discrete_time": ("%s/nodes-int=%s" % (tc_discrete(tc), all(is_int(t) for t in tc["times"]))),
                 "labels": q["labels"] if isinstance(q["labels"], str) else "dict",
                 "precision": q["precision"], "ibl": q["ibl"],
                 "root": "None" if q["root"] is None else "given",
@@ -749,6 +812,8 @@ class Newick(Family):
                 t2 = dict(tc, n=n - 1,
                           parent=[NULL if tc["parent"][v] == NULL else m[tc["parent"][v]] for v in keep],
                           flags=[tc["flags"][v] for v in keep], times=[tc["times"][v] for v in keep])
+                if tc.get("mut_times"):
+                    t2["mut_times"] = [[m[w], mt] for w, mt in tc["mut_times"] if w in m]
                 q2 = dict(q, root=None if q["root"] is None else m[q["root"]])
                 if isinstance(q["labels"], list):
                     q2["labels"] = [[m[k], s] for k, s in q["labels"] if k in m]
@@ -937,6 +1002,52 @@ def transport_failures(desc, opts, seqs, default_mdc, prefix):
     return []
 
 
+def coord(desc, x):
+    """genome coordinate of lattice point x: desc["cmap"][x] when an explicit (strictly increasing,
+    arbitrary float) coordinate map is given, x * scale otherwise."""
+    cm = desc.get("cmap")
+    return cm[x] if cm else x * desc["scale"]
+
+
+def build_ts(desc):
+    """gen_ts.build_tables, with the lattice mapped through desc["cmap"] when present (non-dyadic
+    fractional breakpoints: 0.1 k, k/3, 1e9 + 0.1 k, random fractions; no sites in that case)."""
+    cm = desc.get("cmap")
+    if not cm:
+        return gen_ts.build_tables(desc).tree_sequence()
+    import numpy as np
+    tc = gen_ts.build_tables(dict(desc, scale=1), sort=False, index=False)
+    left = np.array([cm[int(x)] for x in tc.edges.left])
+    right = np.array([cm[int(x)] for x in tc.edges.right])
+    tc.sequence_length = cm[desc["L"]]
+    tc.edges.set_columns(left=left, right=right, parent=tc.edges.parent, child=tc.edges.child,
+                         metadata=tc.edges.metadata, metadata_offset=tc.edges.metadata_offset)
+    tc.sort()
+    tc.build_index()
+    return tc.tree_sequence()
+
+
+def make_cmap(rng, L):
+    kind = rng.choice(["tenths", "thirds", "fractions", "unit", "giga", "sevenths"])
+    if kind == "tenths":
+        cm = [0.1 * k for k in range(L + 1)]
+    elif kind == "thirds":
+        cm = [k / 3 for k in range(L + 1)]
+    elif kind == "sevenths":
+        cm = [k * 0.7 for k in range(L + 1)]
+    elif kind == "giga":
+        cm = [0.0] + [1e9 + 0.1 * k for k in range(1, L + 1)]
+    elif kind == "unit":                 # breakpoints inside (0, 1), sequence length exactly 1
+        cm = [0.0] + sorted(round(rng.uniform(0.05, 0.95), rng.choice([1, 2, 3])) for _ in range(L - 1)) + [1.0]
+    else:
+        cm, x = [0.0], 0.0
+        for _ in range(L):
+            x += rng.choice([0.1, 0.2, 0.3, 0.7, 1.1, 1 / 3, 2 / 3, rng.random() + 0.01])
+            cm.append(x)
+    ok = all(b > a for a, b in zip(cm, cm[1:]))
+    return cm if ok else [0.1 * k for k in range(L + 1)]
+
+
 def has_isolated_sample(desc):
     bps = gen_ts.breakpoints(desc)
     flags = [r[0] for r in desc["nodes"]]
@@ -950,9 +1061,10 @@ def has_isolated_sample(desc):
 
 
 def discrete_genome(desc):
-    s = desc["scale"]
-    vals = [desc["L"] * s] + [e[0] * s for e in desc["edges"]] + [e[1] * s for e in desc["edges"]] + \
-           [r[0] * s for r in desc["sites"]]
+    """ts.discrete_genome: every coordinate that occurs (sequence length, edge ends, site positions,
+    migration ends) is an integer -- lattice points no edge ends at do not occur."""
+    vals = [coord(desc, desc["L"])] + [coord(desc, e[0]) for e in desc["edges"]] + \
+           [coord(desc, e[1]) for e in desc["edges"]] + [r[0] * desc["scale"] for r in desc["sites"]]
     return all(is_int(v) for v in vals)
 
 
@@ -998,11 +1110,24 @@ class Nexus(Family):
                     "reference_sequence": None, "missing_data_character": None}
             yield {"desc": desc, "opts": opts}
 
+        # --- non-dyadic fractional coordinates (round 6): breakpoints such as 0.2 / 0.9 on a
+        # genome of length 1, multiples of 0.1, 1/3, 0.7, 1e9 + 0.1 k: sums and differences of
+        # these are NOT exact in doubles, so names must come from the breakpoints themselves
+        for k in range(120 if tier == "quick" else 1200):
+            desc = connected_desc(rng, max_L=rng.choice([3, 4, 6]), p_gap=0.0, sites=False, scale=1)
+            desc["cmap"] = make_cmap(rng, desc["L"])
+            desc = apply_tmap(desc, rng.choice(["id", "id", "eighth"]))
+            opts = {"precision": rng.choice([None, None, None, 17, 16, 3, 0]),
+                    "include_trees": rng.choice([None, None, True]),
+                    "include_alignments": rng.choice([None, None, False]),
+                    "reference_sequence": None, "missing_data_character": None}
+            yield {"desc": desc, "opts": opts}
+
     def observe(self, case):
         desc, opts = case["desc"], case["opts"]
-        ts = gen_ts.build_tables(desc).tree_sequence()
+        ts = build_ts(desc)
         obs = {"samples": [int(u) for u in ts.samples()], "num_trees": ts.num_trees}
-        if desc["L"] * desc["scale"] > 10 ** 6:
+        if coord(desc, desc["L"]) > 10 ** 6:
             obs["alignments"] = {"err": "NotObserved", "msg": "sequence too long to materialise"}
         try:
             obs["text"] = ts.as_nexus(**opts)
@@ -1101,7 +1226,7 @@ class Nexus(Family):
             fails.append(("nexus-taxa", "TAXA block %r for samples %r" % (taxa, samples)))
         if inc_al:
             mdc = "?" if opts["missing_data_character"] is None else opts["missing_data_character"]
-            want = ["DIMENSIONS NCHAR=%d;" % int(desc["L"] * s), "FORMAT DATATYPE=DNA MISSING=%s;" % mdc, "MATRIX"] + \
+            want = ["DIMENSIONS NCHAR=%d;" % int(coord(desc, desc["L"])), "FORMAT DATATYPE=DNA MISSING=%s;" % mdc, "MATRIX"] + \
                    ["n%d %s" % (u, a) for u, a in zip(samples, al if samples else [])] + [";"]
             if bd["DATA"] != want:
                 fails.append(("nexus-data", "DATA block %r, wanted %r" % (bd["DATA"][:6], want[:6])))
@@ -1116,7 +1241,7 @@ class Nexus(Family):
                 return fails
             discrete = desc_discrete_time(desc)
             for k, ln in enumerate(tl):
-                name = "t%s^%s" % (fmt_fixed(bps[k] * s, pp), fmt_fixed(bps[k + 1] * s, pp))
+                name = "t%s^%s" % (fmt_fixed(coord(desc, bps[k]), pp), fmt_fixed(coord(desc, bps[k + 1]), pp))
                 pre = "TREE %s = [&R] " % name
                 if not ln.startswith(pre):
                     fails.append(("nexus-tree-name", "tree %d: %r does not start with %r" % (k, ln[:60], pre)))
@@ -1153,19 +1278,20 @@ class Nexus(Family):
         s = desc["scale"]
         prec = opts["precision"]
         pp = prec if prec is not None else (0 if dg else 17)
-        trees = []
+        trees = "[]"
         if inc_trees:
             tl = [ln for ln in lines if ln.startswith("  TREE ")]
             if len(tl) != len(bps) - 1:
                 return None
-            for k, ln in enumerate(tl):
-                nw = ln.split(" = [&R] ", 1)[1]
-                trees.append("((%s, %s), %s)" % (cstr(fmt_fixed(bps[k] * s, pp)), cstr(fmt_fixed(bps[k + 1] * s, pp)), cstr(nw)))
+            # names: the model pairs up the breakpoint tokens (each breakpoint formatted once)
+            toks = "[%s]" % "; ".join(cstr(fmt_fixed(coord(desc, b), pp)) for b in bps)
+            nws = "[%s]" % "; ".join(cstr(ln.split(" = [&R] ", 1)[1]) for ln in tl)
+            trees = "(combine (intervals_of %s) %s)" % (toks, nws)
         al = obs["alignments"] if inc_al else []
-        return ("c18_check_nexus %s %s %s %s %s %s [%s] %s"
-                % (clist(obs["samples"]), "true" if inc_al else "false", cz(int(desc["L"] * s)) if inc_al else cz(0),
+        return ("c18_check_nexus %s %s %s %s %s %s %s %s"
+                % (clist(obs["samples"]), "true" if inc_al else "false", cz(int(coord(desc, desc["L"]))) if inc_al else cz(0),
                    cstr(mdc), "[%s]" % "; ".join(cstr(a) for a in al), "true" if inc_trees else "false",
-                   "; ".join(trees), "[%s]" % "; ".join(cstr(l) for l in lines)))
+                   trees, "[%s]" % "; ".join(cstr(l) for l in lines)))
 
     def nontrivial(self, case, obs):
         return isinstance(obs["text"], str) and "TREE " in obs["text"]
@@ -1174,7 +1300,8 @@ class Nexus(Family):
         return {"result": "str" if isinstance(obs["text"], str) else obs["text"]["err"],
                 "data_block": isinstance(obs["text"], str) and "BEGIN DATA" in obs["text"],
                 "max_coordinate": (lambda L: "<2^31" if L < 2 ** 31 else "<2^32" if L < 2 ** 32 else ">=2^32")(
-                    case["desc"]["L"] * case["desc"]["scale"]),
+                    coord(case["desc"], case["desc"]["L"])),
+                "coordinates": "cmap" if case["desc"].get("cmap") else "scale=%s" % case["desc"]["scale"],
                 "trees": min(obs["num_trees"], 4)}
 
 
@@ -1413,12 +1540,16 @@ class NewickExact(Newick):
             tc["scheme"] = scheme
             q = make_query(rng, tc)
             allint = all(is_int(t) for t in tc["times"])
-            q["precision"] = rng.choice([None, 0, 1, 2, 3, 5, 17])      # p < 3 on k/8 times: half-even ties
+            q["precision"] = rng.choice([None, None, 0, 1, 2, 3, 5, 17])      # p < 3 on k/8 times: half-even ties
+            if rng.random() < 0.3:
+                # mutation / migration times (dyadic) that alone decide the default precision
+                tc = add_other_times(rng, tc, fractional=rng.random() < 0.7)
+                tc["mut_times"] = [[u, mt] for u, mt in tc.get("mut_times") or [] if float(mt * 8).is_integer()]
             yield {"tree": tc, "q": q}
 
     def coq_check(self, case, obs):
         tc, q = case["tree"], case["q"]
-        discrete = all(is_int(t) for t in tc["times"])
+        discrete = tc_discrete(tc)
         if "arrays" not in obs or obs.get("resolved_root") is None or isinstance(obs.get("general"), dict):
             return None
         p = q["precision"] if q["precision"] is not None else (0 if discrete else 17)
@@ -1446,10 +1577,20 @@ class NewickExact(Newick):
                 fast = "(Some (FastOverflow %s))" % cz(obs["fast_bufsize"])
             else:
                 fast = "(Some (FastOk %s %s))" % (cz(obs["fast_bufsize"]), cstr(f))
+        extra = ""
+        if q["precision"] is None:
+            # the default precision as the model resolves it from ALL node, mutation, migration times
+            ms_ = scaled_times([mt for _u, mt in tc.get("mut_times") or []] + list(tc.get("mig_times") or []) + list(tc["times"]))
+            if ms_ is not None:
+                q2, allx = ms_
+                k1 = len(tc.get("mut_times") or [])
+                k2 = k1 + len(tc.get("mig_times") or [])
+                extra = " && c18_check_default_precision %s %s %s %s %s" % (
+                    cz(q2), clist(allx[k2:]), clist(allx[:k1]), clist(allx[k1:k2]), cz(p))
         return ("c18_check_exact (mk_ctree %s %s %s %s %s) %s %s %s %s %s %s %s %s %s %s %s %s"
                 % (clist(a["lc"]), clist(a["rc"]), clist(a["ls"]), clist(a["par"]), clist(a["flags"]),
                    cz(tc["n"]), crose(r, kids), cz(obs["root_parent"]), cz(sq), clist(st), labs,
-                   "true" if ibl else "false", cz(p), fast, cstr(obs["general"]), cz(obs["W"]), cout(q, obs)))
+                   "true" if ibl else "false", cz(p), fast, cstr(obs["general"]), cz(obs["W"]), cout(q, obs))) + extra
 
 
 class BufSize(Family):
